@@ -893,6 +893,71 @@ fn tamper_scenarios(seed: u64, thorough: bool) -> Vec<Scenario> {
     v
 }
 
+
+/// C07 under concurrency: a receiver whose setup differs from the sender's in one component runs while other key
+/// schedules - among them one with exactly the sender's parameters - run on other threads: it must still end up with R1's
+/// key material for ITS parameters (exports differ from the sender's, the sender's ciphertext is rejected)
+fn binding_scenarios(seed: u64, thorough: bool) -> Vec<Scenario> {
+    use hpke_mc::props::r1_setup_r;
+    let mut v = vec![];
+    let fx = fix(ALPHA, Mode::AuthPsk, 71, seed);
+    let other = fix(ALPHA, Mode::Base, 72, seed);
+    let recv_body = |m: ModeSpec, info: Vec<u8>, fx: Arc<Fix>| -> Body {
+        Arc::new(move || {
+            let ops = hpke_mc::suites::suite_ops(ALPHA);
+            match ops.setup_receiver(&m, &fx.k.sk_r, &fx.enc, &info) {
+                Obs::Ok(mut r) => {
+                    let e = enc_err(r.export(b"bind", 32), |v| v);
+                    let o = enc_err(r.open(&fx.msgs[0].2, &fx.msgs[0].1), |v| v);
+                    [e, o].concat()
+                }
+                o => enc_err(o.map(|_| vec![]), |v| v),
+            }
+        })
+    };
+    let recv_expect = |m: &ModeSpec, info: &[u8], matching: bool| -> Vec<u8> {
+        let r = r1_setup_r(ALPHA, m, &fx.enc, &fx.k.sk_r, info).expect("R1 setup_r");
+        let e = r.export(b"bind", 32).unwrap();
+        let o = if matching { fx.msgs[0].0.clone() } else { enc_err(Obs::<Vec<u8>>::Err(hpke::HpkeError::OpenError), |v| v) };
+        [e, o].concat()
+    };
+    let other_body: Body = {
+        let o = other.clone();
+        Arc::new(move || {
+            let ops = hpke_mc::suites::suite_ops(ALPHA);
+            match ops.setup_sender(&o.m, &o.k.pk_r, &o.info, &mut ScriptRng::new(&o.k.ikm_e)) {
+                Obs::Ok((enc, s)) => [enc, enc_err(s.export(b"e3", 40), |v| v)].concat(),
+                x => enc_err(x.map(|_| vec![]), |v| v),
+            }
+        })
+    };
+    let other_expect = [other.enc.clone(), other.export.clone()].concat();
+    let mut perturbed: Vec<(&str, ModeSpec, Vec<u8>)> = vec![("info || 00", fx.m.clone(), [&fx.info[..], &[0u8][..]].concat())];
+    let mut m2 = fx.m.clone();
+    let l = m2.psk_id.len();
+    m2.psk_id[l - 1] ^= 1;
+    perturbed.push(("last bit of psk_id flipped", m2, fx.info.clone()));
+    if thorough {
+        let mut m3 = fx.m.clone();
+        m3.kind = 1; // Psk instead of AuthPsk
+        m3.pk_s = vec![];
+        m3.sk_s = vec![];
+        perturbed.push(("mode Psk instead of AuthPsk", m3, fx.info.clone()));
+        let mut m4 = fx.m.clone();
+        m4.psk[0] ^= 0x80;
+        perturbed.push(("first bit of psk flipped", m4, fx.info.clone()));
+    }
+    for (name, m, info) in perturbed {
+        v.push(Scenario {
+            name: format!("B-{} mismatched receiver ({}) || unrelated sender || matching receiver", v.len(), name),
+            bodies: vec![recv_body(m.clone(), info.clone(), fx.clone()), other_body.clone(), recv_body(fx.m.clone(), fx.info.clone(), fx.clone())],
+            expect: vec![recv_expect(&m, &info, false), other_expect.clone(), recv_expect(&fx.m, &fx.info, true)],
+            prelude: vec![],
+        });
+    }
+    v
+}
+
 #[derive(Clone, Debug, Serialize, Deserialize)]
 struct SchedCase {
     scenario: usize,
@@ -1911,6 +1976,7 @@ fn main() {
             }
             "C18" => {}
             "C06" => cfg.prop = "C06".into(),
+            "C07" => cfg.prop = "C07".into(),
             other => {
                 eprintln!("unknown argument {}", other);
                 std::process::exit(2);
@@ -1932,9 +1998,15 @@ fn main() {
     hpke::verif::set_sched_hook(Some(hook));
     let t0 = Instant::now();
     let t = cfg.tier.thorough();
-    if cfg.prop == "C06" {
-        // C06's concurrent part: honest and tampered openers under every preemption-bounded schedule
-        let part = E3b { scen: tamper_scenarios(cfg.seed, t), bounds: if t { vec![0, 1, 2, 3] } else { vec![0, 1, 2] }, stats: Mutex::new(vec![]), label: Some("E3b-honest-vs-tampered-openers") };
+    if cfg.prop == "C06" || cfg.prop == "C07" {
+        // the concurrent parts of C06 (honest and tampered openers) and C07 (a mismatched receiver next to other key
+        // schedules) under every preemption-bounded schedule
+        let c06 = cfg.prop == "C06";
+        let part = if c06 {
+            E3b { scen: tamper_scenarios(cfg.seed, t), bounds: if t { vec![0, 1, 2, 3] } else { vec![0, 1, 2] }, stats: Mutex::new(vec![]), label: Some("E3b-honest-vs-tampered-openers") }
+        } else {
+            E3b { scen: binding_scenarios(cfg.seed, t), bounds: if t { vec![0, 1, 2] } else { vec![0, 1] }, stats: Mutex::new(vec![]), label: Some("E3b-mismatched-receiver-among-other-key-schedules") }
+        };
         if let Some(path) = &cfg.replay {
             let v: serde_json::Value = serde_json::from_str(&std::fs::read_to_string(path).expect("cannot read replay file")).expect("bad replay file");
             match replay_part(&part, &cfg, &v["case"]) {
@@ -1954,7 +2026,7 @@ fn main() {
         let mut c1 = cfg.clone();
         c1.threads = 1;
         let mut r = run_part(&part, &c1);
-        r.rule = "an honest and a tampered copy (one ciphertext bit / one tag bit) of the same message are opened AT THE SAME TIME by two real threads through the same interface (open, open_in_place_detached on contexts of one session; single_shot_open, single_shot_open_in_place_detached) with the same recipient key: under every schedule with at most B preemptions at the in-library scheduling points the honest copy opens to its plaintext and the tampered one fails with OpenError".into();
+        r.rule = if !c06 { "three real threads: a receiver whose setup differs from the sender's in ONE component (info || 00, one psk_id bit, the mode, one psk bit), an unrelated sender setup, and a receiver with exactly the sender's parameters run side by side; under every schedule with at most B preemptions at the in-library scheduling points the mismatched receiver's export equals R1's value for ITS parameters (so it differs from the sender's) and it rejects the sender's ciphertext, while the other two get R1's results too".to_string() } else { "an honest and a tampered copy (one ciphertext bit / one tag bit) of the same message are opened AT THE SAME TIME by two real threads through the same interface (open, open_in_place_detached on contexts of one session; single_shot_open, single_shot_open_in_place_detached) with the same recipient key: under every schedule with at most B preemptions at the in-library scheduling points the honest copy opens to its plaintext and the tampered one fails with OpenError".to_string() };
         eprintln!("  part {}: cases {} schedules {} transitions {} violating {} ({:.1}s)", r.name, r.run, r.states, r.transitions, r.violations.len(), r.wall_s);
         if !r.machinery_errors.is_empty() {
             for e in &r.machinery_errors {
@@ -1962,7 +2034,7 @@ fn main() {
             }
             std::process::exit(2);
         }
-        let path = emit_part.expect("sched C06 needs --emit-part <file>");
+        let path = emit_part.expect("sched C06/C07 needs --emit-part <file>");
         std::fs::write(&path, serde_json::to_string(&vec![r]).unwrap()).expect("cannot write part file");
         std::process::exit(0);
     }
